@@ -28,6 +28,16 @@ namespace SymEngine
 
 class Tokenizer;
 
+// Operand of a logical operator (`~`, `&`, `|`, `^` and their SBML spellings):
+// anything that is not a Boolean is a parse error.
+inline RCP<const Boolean> parser_boolean_operand(const RCP<const Basic> &b)
+{
+    if (not is_a_Boolean(*b)) {
+        throw ParseError("Boolean operator received a non-boolean operand");
+    }
+    return rcp_static_cast<const Boolean>(b);
+}
+
 class Parser
 {
 protected:
